@@ -741,7 +741,7 @@ class Gen(object):
     # captured names not declared nonlocal are read-only inside (assigning would make them local)
     inner.readonly = set(captured) - set(nl)
     saved = (cfg['names'], cfg['fn_names'], cfg.get('raise', True), self.budget)
-    cfg['names'] = ['u0', 'u1']
+    cfg['names'] = ['u0', 'u1'] if inner.fn_depth == 1 else ['v%d' % inner.fn_depth, 'y%d' % inner.fn_depth]
     cfg['fn_names'] = ['g0']
     cfg['raise'] = False   # exceptions raised by a callee are outside the class
     self.budget = min(self.budget, 6)
@@ -827,6 +827,15 @@ def _module(draw, cfg):
     env.bound[n] = 'int'
   env.readonly = {'c0', 'c1', 'G0', 'G1'}
   lines.extend(decl)
+  if cfg['defs'] and draw(st.integers(0, 99)) < cfg.get('predefine_fns', 30):
+    # forced shape: local functions exist from the start, so that redefinitions inside branches /
+    # loop bodies can be called after the join or at the top of the next iteration
+    g.note('predefined_local_fns')
+    for f in cfg['fn_names']:
+      decl.append('    def %s(q):' % f)
+      decl.append('      return q')
+      lines.extend(decl[-2:])
+      env.bound[f] = 'fn'
   g.meta_decl = len(decl)
   body = g.function('prog', ['a', 'b', 'o', 'd', 'l'], 1, env)
   lines.extend(body)
